@@ -374,6 +374,16 @@ OP(compare) {
   vf_reach(1);
   t.finish();
 }
+// equality alone (no sorting involved), every combination of states; both operand orders are reached through the
+// (SS_CLS, SS_CLS2) partitions, != is !(==) in the source and is exercised by OP(compare)
+OP(compare_eq) {
+  Two t; t.setup(SS_CLS, SS_CLS2);
+  const SS &x = t.a.s(), &y = t.b.s();
+  bool eq = true; for (unsigned i = 0; i < SS_KEYS; ++i) if (t.a.m.has[i] != t.b.m.has[i]) eq = false;
+  vf_assert((x == y) == eq, 4008);
+  vf_reach(1);
+  t.finish();
+}
 OP(copy_move) {
   Ctx c; c.setup(SS_CLS);
   uint8_t form = nd8(3);
